@@ -63,6 +63,21 @@ MINIMAL = {
 }
 
 
+# The documented aliases of the library classes (class attribute `aliases`, marked "#:" for the API docs), family by family.
+# Used only to decide which names are FOREIGN to a family: an alias documented for another family and not for this one
+# must be unknown here, whatever the classes' alias containers hold at run time (they may have been shared or mutated).
+DOCUMENTED = {
+    "scales.ScalingFunction": {"bark": "BarkScaling", "mel": "MelScaling", "octave": "OctaveScaling", "uniform": "LinearScaling", "linear": "LinearScaling"},
+    "filters.LinearFilterBank": {"tonebank": "ComplexGammatoneFilterBank", "gammatone": "ComplexGammatoneFilterBank", "gabor": "GaborFilterBank", "fbank": "Fbank",
+                                 "triangular": "TriangularOverlappingFilterBank", "tri": "TriangularOverlappingFilterBank"},
+    "filters.WindowFunction": {"gamma": "GammaWindow", "hann": "HannWindow", "hanning": "HannWindow", "hamming": "HammingWindow", "blackman": "BlackmanWindow",
+                               "black": "BlackmanWindow", "tri": "BartlettWindow", "bartlett": "BartlettWindow", "triangular": "BartlettWindow"},
+    "compute.FrameComputer": {"si": "ShortIntegrationFrameComputer", "stft": "ShortTimeFourierTransformFrameComputer"},
+    "pre.PreProcessor": {"preemphasis": "Preemphasize", "preemph": "Preemphasize", "preemphasize": "Preemphasize", "dithering": "Dither", "dither": "Dither"},
+    "post.PostProcessor": {"stack": "Stack", "deltas": "Deltas", "cmvn": "Standardize", "unit": "Standardize", "normalize": "Standardize", "standardize": "Standardize"},
+}
+
+
 def family(path):
     import importlib
 
@@ -240,6 +255,24 @@ def registry_part(mon, rec):
                 fam.from_alias(bad)
             except Exception:
                 pass
+        # names documented for other families only: unknown here, even if some class's alias container now holds them
+        # (the monitor's own oracle reads the live containers, so this part decides on the documented table instead)
+        library = {c.__name__ for c in walk(fam) if c.__module__.startswith("pydrobert.speech")}
+        foreign = set().union(*[set(d) for f2, d in DOCUMENTED.items() if f2 != path]) - set(DOCUMENTED[path])
+        user_aliases = {a for c in walk(fam) if c.__name__ not in library for a in names_of(c.__dict__.get("aliases") or ())}
+        for a in sorted(foreign - user_aliases):
+            rec.ev()
+            rec.count("foreign_documented_aliases_probed")
+            try:
+                obj = fam.from_alias(a, **MINIMAL.get(DOCUMENTED[path][next(iter(DOCUMENTED[path]))], {}))
+            except ValueError as e:
+                if "Cannot find subclass" in str(e):
+                    continue
+                obj = e
+            except Exception as e:
+                obj = e
+            mon.v("%s.from_alias(%r): %r is an alias of another family only, documented outcome ValueError; got %s" % (fam.__name__, a, a, type(obj).__name__ if not isinstance(obj, Exception) else repr(obj)[:120]),
+                  check="foreign_alias", root=fam.__name__, alias=a)
     rec.sample({"part": "registry", "pairs": n})
 
 
